@@ -258,7 +258,7 @@ def main():
     uniform = lambda c: (lambda m, p: c)
 
     # (2) every strategy x header variant x index kind, uniform qualities over all 94 phred characters
-    n_rep = 1 if tier == 'quick' else 6
+    n_rep = 1 if tier == 'quick' else 30
     phreds = [chr(c) for c in range(33, 127)]
     for st in g.strategies:
         if type(st).__name__ == 'IlluminaBaseDemultiplexer':
@@ -282,7 +282,7 @@ def main():
 
     # (3) all 94 phred characters inside the UMI (per-position qualities), on the plain-layout strategies
     plain = [st for st in g.strategies if st.shortName in reachable and g.layouts(st) and g.layouts(st)[0] is st]
-    for c in range(33, 127):
+    for c in [x for x in range(33, 127) for _ in range(1 if tier == 'quick' else 3)]:
         for st in (plain if tier != 'quick' else plain[(c % 3)::3]):
             fld = g.fields('single')
             q = lambda m, p, c=c: chr(c) if (p + m) % 2 == 0 else chr(33 + (c * 7 + p) % 52)
